@@ -1,0 +1,223 @@
+//go:build verif
+
+// Contracts for package cache, read by the verification-condition generator in
+// /verif (govc).  Comment-only.
+//
+// Ghost vocabulary: mapsum(m) is the verifier-maintained sum, over the present
+// keys of map m, of the field named in the "sum" directive (updated at every
+// map write and delete it executes); readall(r)/readlen(r) are the identity and
+// number of all bytes reader r yields until EOF; readercontent(h) what a reader
+// handle h will yield; fsexists/fssize/fscontent the ghost file system.
+
+package cache
+
+//@ sum memoryInternalEntry meta.Size
+//@ sum EntryMetadata Size
+
+//@ lock elem level 1
+//@ lock MemoryCache.mu level 2
+//@ lock FileCache.mu level 2
+
+//@ field EntryMetadata.LastAccess guarded_by shard
+//@ field EntryMetadata.Expires guarded_by shard
+//@ field EntryMetadata.Size guarded_by shard
+//@ field EntryMetadata.TimeWritten guarded_by shard
+//@ field MemoryCache.memoryCap guarded_by mu
+//@ field map_map_cache.CacheKey guarded_by mu
+
+// ---------------------------------------------------------------- helpers
+
+//@ props C14 C16
+//@ func getLock
+//@   nopanic
+//@   pure
+//@   inline
+//@   requires len(locks) >= 1 && len(locks) < 4294967296
+
+// ---------------------------------------------------------------- memory backend
+
+// Representation invariant: the byte counter equals the sum of the stored
+// sizes, every stored entry has a metadata record, sizes are not negative.
+//@ spec func specMemInv(c ptr) bool = c.byteSize.val != nil && c.byteSize.val.v == mapsum(c.entries) && len(c.locks) >= 1 && len(c.locks) < 4294967296 && c.entries != nil && (forall k key :: in(c.entries, k) ==> c.entries[k] != nil && allocated(c.entries[k]) && c.entries[k].meta != nil && allocated(c.entries[k].meta) && c.entries[k].meta.Size >= 0)
+
+//@ props C12 C01 C14 C15 C16
+//@ func MemoryCache.deleteInternal
+//@   nopanic
+//@   ghost holds shard
+//@   requires specMemInv(c)
+//@   ensures [C12] specMemInv(c)
+//@   ensures [C01] !in(c.entries, key)
+//@   ensures [C12] forall k key :: k != keyid(key) ==> in(c.entries, k) == old(in(c.entries, k)) && c.entries[k] == old(c.entries[k])
+//@   ensures result == nil <==> old(in(c.entries, key))
+
+//@ props C12 C01 C14 C15 C16
+//@ func MemoryCache.Delete
+//@   nopanic
+//@   requires specMemInv(c)
+//@   ensures [C12] specMemInv(c)
+//@   ensures [C01] !in(c.entries, key)
+
+//@ props C01 C03 C14 C15 C16
+//@ func MemoryCache.Get
+//@   nopanic
+//@   requires specMemInv(c)
+//@   ensures specMemInv(c)
+//@   ensures [C01] result1 == nil <==> old(in(c.entries, key))
+//@   ensures [C01] result1 == nil ==> result0 != nil && result0.Metadata == c.entries[key].meta && readercontent(asptr(result0.Data, "memoryReadSeekCloser").Reader) == sid(c.entries[key].data)
+//@   ensures [C03] result1 == nil && result0.Stale ==> c.entries[key].meta.Expires < now
+//@   ensures [C03] result1 == nil && !result0.Stale ==> c.entries[key].meta.Expires >= old(now)
+//@   ensures forall k key :: in(c.entries, k) == old(in(c.entries, k)) && c.entries[k] == old(c.entries[k])
+
+// ---------------------------------------------------------------- janitor callbacks
+
+// The janitor sees a backend only through these function fields.  Each closure
+// a constructor puts there is verified against the field's contract
+// ("implements"); the janitor is verified against the contracts alone.
+//@ fnfield cacheFunctions.removeEntry(key CacheKey) (err error)
+//@   ghost holds shard
+//@   assigns cache. map_ atomic ghost:mapsum ghost:fsexists ghost:fssize ghost:fscontent
+
+//@ fnfield cacheFunctions.getCacheSize() (size int64)
+//@   pure
+
+//@ fnfield cacheFunctions.getCacheLen() (n int)
+//@   pure
+//@   ensures n >= 0
+
+//@ fnfield cacheFunctions.getLock(key CacheKey) (lock ptr)
+//@   pure
+//@   ensures lock != nil
+
+// evict touches a backend only through the callbacks above (checked when evict
+// itself is verified); see "callback rule" in DESIGN.md.
+//@ func cacheJanitor.evict
+//@   trusted
+//@   ghost callbacks-only
+//@   assigns cache. map_ atomic ghost:mapsum ghost:fsexists ghost:fssize ghost:fscontent
+
+// ---------------------------------------------------------------- memory backend: store
+
+// Storing under a key: on success the entry holds all bytes of the reader, its
+// size is their number, and the metadata object is the one given; other keys
+// are untouched.  The representation invariant is kept on every path, also when
+// the key was already present (overwrite) and when the source reader fails.
+//@ props C12 C01 C09 C14 C15 C16
+//@ func MemoryCache.cacheInternal
+//@   nopanic
+//@   ghost holds shard
+//@   ghost stable specMemInv(c) && c.janitor != nil && c.maxCacheSize.val != nil && c.byteSize.val.v < 4611686018427387904
+//@   requires specMemInv(c) && c.janitor != nil && c.maxCacheSize.val != nil
+//@   requires c.byteSize.val.v < 4611686018427387904      // the cache never holds 2^62 bytes: machine arithmetic assumption
+//@   ensures [C12] specMemInv(c)
+//@   ensures [C01] result1 == nil ==> in(c.entries, key) && sid(c.entries[key].data) == old(readall(data)) && c.entries[key].meta.Size == old(readlen(data)) && c.entries[key].meta.Expires == expires && result0 != nil && result0.Metadata == c.entries[key].meta
+//@   ensures [C01] result1 == nil ==> readercontent(asptr(result0.Data, "memoryReadSeekCloser").Reader) == sid(c.entries[key].data)
+//@   ensures [C01] result1 != nil && !evictIfFull ==> (forall k key :: in(c.entries, k) == old(in(c.entries, k)) && c.entries[k] == old(c.entries[k]))
+
+//@ props C12 C01 C09 C14 C15 C16
+//@ func MemoryCache.Cache
+//@   nopanic
+//@   requires specMemInv(c) && c.janitor != nil && c.maxCacheSize.val != nil
+//@   requires c.byteSize.val.v < 4611686018427387904
+//@   ensures [C12] specMemInv(c)
+//@   ensures [C01] result1 == nil ==> in(c.entries, key) && sid(c.entries[key].data) == old(readall(data)) && c.entries[key].meta.Size == old(readlen(data)) && result0 != nil && result0.Metadata == c.entries[key].meta
+
+// The modifier passed to UpdateMetadata may change the expiry only (every
+// closure passed for it is verified against this frame, see package proxy).
+//@ props C12 C06 C14 C15 C16
+//@ func MemoryCache.UpdateMetadata
+//@   nopanic
+//@   ghost callback modifier assigns EntryMetadata_MetadataT_.Expires
+//@   requires specMemInv(c) && modifier != nil
+//@   ensures [C12] specMemInv(c)
+//@   ensures result == nil <==> old(in(c.entries, key))
+//@   ensures [C06] forall k key :: in(c.entries, k) == old(in(c.entries, k)) && c.entries[k] == old(c.entries[k])
+//@   ensures [C06] result == nil ==> sid(c.entries[key].data) == old(sid(c.entries[key].data)) && c.entries[key].meta == old(c.entries[key].meta) && c.entries[key].meta.Size == old(c.entries[key].meta.Size)
+
+//@ props C01 C14 C15 C16
+//@ func MemoryCache.GetMetadata
+//@   nopanic
+//@   requires specMemInv(c)
+//@   ensures specMemInv(c)
+//@   ensures err == nil <==> old(in(c.entries, key))
+//@   ensures err == nil ==> meta == c.entries[key].meta
+
+// ---------------------------------------------------------------- file backend
+
+// Representation invariant: the byte counter equals the sum of the recorded
+// sizes; every recorded entry has its file, of exactly the recorded size; and a
+// file at a key's path exists only for recorded entries.
+//@ spec func specFilePath(c ptr, k int) int = pathjoin(sid(c.rootDir.Path), k)
+//@ spec func specFileInv(c ptr) bool = c.byteSize.val != nil && c.byteSize.val.v == mapsum(c.entriesMetadata) && len(c.locks) >= 1 && len(c.locks) < 4294967296 && c.entriesMetadata != nil && (forall k key :: in(c.entriesMetadata, k) ==> c.entriesMetadata[k] != nil && allocated(c.entriesMetadata[k]) && c.entriesMetadata[k].Size >= 0 && fsexists(specFilePath(c, k)) && fssize(specFilePath(c, k)) == c.entriesMetadata[k].Size) && (forall k key :: fsexists(specFilePath(c, k)) ==> in(c.entriesMetadata, k))
+
+//@ props C12 C01 C14 C15 C16
+//@ func FileCache.ensureRemoveFile
+//@   nopanic
+//@   ghost holds shard
+//@   requires c.byteSize.val != nil
+//@   ensures result == nil ==> !fsexists(sid(path))
+//@   ensures result == nil && old(fsexists(sid(path))) ==> c.byteSize.val.v == wrap64(old(c.byteSize.val.v) + wrap64(0 - old(fssize(sid(path)))))
+//@   ensures result == nil && !old(fsexists(sid(path))) ==> c.byteSize.val.v == old(c.byteSize.val.v)
+//@   ensures result != nil ==> c.byteSize.val.v == old(c.byteSize.val.v) && fsinode(sid(path)) == old(fsinode(sid(path)))
+//@   ensures forall p int :: p != sid(path) ==> fsinode(p) == old(fsinode(p))
+//@   ensures forall i int :: isize(i) == old(isize(i)) && icontent(i) == old(icontent(i))
+//@   assigns atomic ghost:fsinode
+
+//@ props C12 C01 C14 C15 C16
+//@ func FileCache.ensureRemove
+//@   nopanic
+//@   ghost holds shard
+//@   requires specFileInv(c) && c.byteSize.val.v < 4611686018427387904
+//@   ensures [C12] specFileInv(c)
+//@   ensures result == nil ==> !in(c.entriesMetadata, key)
+//@   ensures c.byteSize.val.v <= old(c.byteSize.val.v)
+
+//@ props C12 C01 C14 C15 C16
+//@ func FileCache.Delete
+//@   nopanic
+//@   requires specFileInv(c) && c.byteSize.val.v < 4611686018427387904
+//@   ensures [C12] specFileInv(c)
+//@   ensures result == nil ==> !in(c.entriesMetadata, key)
+
+// A handle handed out by Get reads the content the entry's file had at that
+// moment; replacing or removing the entry later does not change what an already
+// opened handle reads (handlecontent is a function of the handle's inode).
+//@ props C01 C03 C14 C15 C16
+//@ func FileCache.Get
+//@   nopanic
+//@   requires specFileInv(c)
+//@   ensures specFileInv(c)
+//@   ensures [C01] result1 == nil ==> old(in(c.entriesMetadata, key)) && result0 != nil && result0.Metadata == c.entriesMetadata[key] && handlecontent(result0.Data) == fscontent(specFilePath(c, keyid(key))) && handlesize(result0.Data) == c.entriesMetadata[key].Size
+//@   ensures [C01] !old(in(c.entriesMetadata, key)) ==> result1 == ErrCacheEntryNotFound
+//@   ensures [C03] result1 == nil && result0.Stale ==> c.entriesMetadata[key].Expires < now
+//@   ensures [C03] result1 == nil && !result0.Stale ==> c.entriesMetadata[key].Expires >= old(now)
+//@   ensures forall k key :: in(c.entriesMetadata, k) == old(in(c.entriesMetadata, k)) && c.entriesMetadata[k] == old(c.entriesMetadata[k])
+
+// Storing: on success the file of the key holds all bytes of the reader and the
+// recorded size is their number; on any failure the previous entry of the key
+// (record and file content) is exactly as before.  Inodes that were already open
+// are never written: a store creates a new file and renames it into place.
+//@ props C12 C01 C09 C14 C15 C16
+//@ func FileCache.Cache
+//@   nopanic
+//@   ghost stable specFileInv(c) && c.janitor != nil && c.maxCacheSize.val != nil && c.byteSize.val.v < 4611686018427387904
+//@   requires specFileInv(c) && c.janitor != nil && c.maxCacheSize.val != nil && c.byteSize.val.v < 4611686018427387904
+//@   ensures [C12] specFileInv(c)
+//@   ensures [C01] result1 == nil ==> in(c.entriesMetadata, key) && fscontent(specFilePath(c, keyid(key))) == old(readall(data)) && c.entriesMetadata[key].Size == old(readlen(data)) && c.entriesMetadata[key].Expires == expires && result0 != nil && result0.Metadata == c.entriesMetadata[key] && handlecontent(result0.Data) == old(readall(data))
+//@   ensures [C01] forall i int :: old(fsinode(specFilePath(c, keyid(key)))) == i && i != 0 ==> icontent(i) == old(icontent(i)) && isize(i) == old(isize(i))
+
+//@ props C12 C06 C14 C15 C16
+//@ func FileCache.UpdateMetadata
+//@   nopanic
+//@   ghost callback modifier assigns EntryMetadata_MetadataT_.Expires
+//@   requires specFileInv(c) && modifier != nil
+//@   ensures [C12] specFileInv(c)
+//@   ensures old(in(c.entriesMetadata, key)) <==> result == nil
+//@   ensures [C06] forall k key :: in(c.entriesMetadata, k) == old(in(c.entriesMetadata, k)) && c.entriesMetadata[k] == old(c.entriesMetadata[k])
+
+//@ props C01 C14 C15 C16
+//@ func FileCache.GetMetadata
+//@   nopanic
+//@   requires specFileInv(c)
+//@   ensures specFileInv(c)
+//@   ensures err == nil <==> old(in(c.entriesMetadata, key))
+//@   ensures err == nil ==> meta == c.entriesMetadata[key]
